@@ -16,7 +16,7 @@ RULE = ("storage mode (production default `default`, `local`, `notes`, per-repos
         "the notes ref) and from refs/notes/ai-remote/* is scanned: outside `notes` mode no canary may appear; in `notes` mode no planted "
         "token may appear verbatim. non-trivial = a note with prompts for a session with canaries was written; distinct = (mode, agent kind, op sequence)")
 
-MODES = ["default", "default", "local", "notes", "notes", "exclude", "include-miss"]
+MODES = ["default", "default", "default-cas", "default-cas", "local", "notes", "notes", "exclude", "include-miss"]
 
 
 class Sc8(Hist):
@@ -152,6 +152,11 @@ def run_case(case):
         ps = "notes"    # global says notes, but this repository is excluded -> must fall back to not sharing
     if mode == "include-miss":
         ps = "notes"
+    if mode == "default-cas":
+        # production default with the upload queue ACTIVE (a non-default API base makes it active without a login; nothing listens
+        # on the port and the background flush is off): transcripts go to the local queue, never into the note
+        ps = "default"
+        cfg["api_base_url"] = "http://127.0.0.1:9"
     sc = Sc8("C08", seed, index, prof, world_kwargs=dict(prompt_storage=ps, config_extra=cfg))
     sc.mode = mode
     try:
@@ -172,7 +177,8 @@ def run_case(case):
             where = "op %d %s" % (k, op)
             if op == "reset":
                 sc.begin_undoable()
-            sc.do_edit(author=rng.choice(sc.sessions))
+            first_who = rng.choice(sc.sessions)
+            sc.do_edit(author=first_who)
             if op == "commit":
                 sc.commit_all("c")
             elif op == "partial":
@@ -202,13 +208,15 @@ def run_case(case):
             elif op == "reset":
                 sc.commit_all("to-undo")
                 sc.op_reset(mode=rng.choice(["--soft", "--mixed"]))
+                if rng.random() < 0.5:
+                    sc.do_edit(author=first_who, kinds=["ins"])      # the same conversation goes on after the un-do
                 sc.commit_all("again")
             elif op == "stash":
                 sc.op_stash()
                 sc.commit_all("after-stash")
             else:
                 sc.commit_all("pre")
-                {"rebase": sc.op_rebase, "cherry": sc.op_cherry_pick, "squash": sc.op_squash_merge, "ci": sc.op_ci_rewrite}[op]()
+                {"rebase": sc.op_rebase, "cherry": sc.op_cherry_pick, "squash": lambda: sc.op_squash_merge(continue_session=rng.random() < 0.5), "ci": sc.op_ci_rewrite}[op]()
             sc.after_step(where)
             if sc.viol or sc.inconclusive:
                 break
@@ -226,5 +234,5 @@ def main(tier, seed, replay=None):
     return C.standard_main("C08", run_case, RULE, "exploration",
                            ["canaries identify conversation text by substring; planted tokens are pre-screened by the framework's own statistics so that the detector's design false-negative rate stays out of the verdict",
                             "tokens inside tool_use inputs are recorded, not asserted (the property says conversation text)",
-                            "the CAS upload branch needs login + network: only its not-logged-in arm (strip) is reachable offline"],
+                            "the upload queue is made active by a non-default api_base_url (mode default-cas); the upload itself never happens (no network): what is checked is that queued transcripts do not also stay in the note"],
                            tier, seed, replay, 50, 480)
